@@ -420,6 +420,68 @@ func runCase(c Case, dir string) (err error, counts map[string]int) {
 			}
 		}
 	}
+	// 4. ReadCache over the files that now exist: the same program with the caching node replaced by
+	// ReadCache(type, shards, prefix). With every shard file present it must succeed with the reference
+	// rows and without running the upstream computation; with a file missing it may fail ("fail if it
+	// does not exist") but never succeeds with other rows.
+	for _, cn := range nodes {
+		if cn.n.Schema.Prefix != 1 {
+			continue // ReadCache yields prefix 1; a different prefix would change the meaning of the consumers
+		}
+		all := true
+		for s := 0; s < cn.n.Shards; s++ {
+			if _, serr := os.Stat(cachePath(work, cn.n, s)); serr != nil {
+				all = false
+			}
+		}
+		rspec := spec
+		rspec.Nodes = append([]progen.Node(nil), spec.Nodes...)
+		rspec.Nodes[cn.id].Op = "readcache"
+		if e := progen.Annotate(&rspec); e != nil {
+			continue
+		}
+		third := runOnce(sess, rspec, base)
+		if third.err != nil {
+			if strings.Contains(third.err.Error(), "wedged") {
+				delete(sessions, c.Exec)
+				return fmt.Errorf("readcache in place of %s node %d: %v", cn.n.Op, cn.id, third.err), counts
+			}
+			if all {
+				return fmt.Errorf("readcache in place of %s node %d: all %d shard files exist, yet the run failed: %v", cn.n.Op, cn.id, cn.n.Shards, third.err), counts
+			}
+			continue
+		}
+		if e := progen.CheckRows(rootStage, third.rows); e != nil {
+			return fmt.Errorf("readcache in place of %s node %d (all files present: %v): rows differ from the uncached reference: %v", cn.n.Op, cn.id, all, e), counts
+		}
+		if cn.private {
+			for s := 0; s < cn.n.Shards; s++ {
+				if anyStream(third.streams[cn.obs], s) {
+					return fmt.Errorf("readcache in place of %s node %d: the upstream computation of shard %d ran", cn.n.Op, cn.id, s), counts
+				}
+			}
+		}
+		// ... and with one of the files taken away: an error, or (if that shard is never needed) still the reference rows
+		if all {
+			gone := cachePath(work, cn.n, c.Mask%cn.n.Shards)
+			saved, rerr := ioutil.ReadFile(gone)
+			if rerr != nil {
+				continue
+			}
+			os.Remove(gone)
+			fourth := runOnce(sess, rspec, base)
+			ioutil.WriteFile(gone, saved, 0666)
+			if fourth.err != nil && strings.Contains(fourth.err.Error(), "wedged") {
+				delete(sessions, c.Exec)
+				return fmt.Errorf("readcache in place of %s node %d with a shard file removed: %v", cn.n.Op, cn.id, fourth.err), counts
+			}
+			if fourth.err == nil {
+				if e := progen.CheckRows(rootStage, fourth.rows); e != nil {
+					return fmt.Errorf("readcache in place of %s node %d with the file of shard %d removed: the run succeeded with rows that differ from the reference: %v", cn.n.Op, cn.id, c.Mask%cn.n.Shards, e), counts
+				}
+			}
+		}
+	}
 	return nil, counts
 }
 
